@@ -12,7 +12,7 @@ M = [
     ("C01-keep-claimed-name", "C01", "passage-protocol/src/connection.rs", "login_start.user_name = auth_response.name;", "let _ = &auth_response.name;"),
     ("C01-skip-token-check", "C01", "passage-protocol/src/connection.rs", "if !crypto::verify_token(verify_token, &decrypted_verify_token) {", "if false && !crypto::verify_token(verify_token, &decrypted_verify_token) {"),
     ("C02-drop-ip-comparison", "C02", "passage-protocol/src/connection.rs", "if cookie.client_addr.ip() != self.client_address.ip() || expires_at < now {", "if expires_at < now {"),
-    ("C02-expiry-off-by-one", "C02", "passage-protocol/src/connection.rs", "|| expires_at < now {", "|| expires_at <= now {"),
+    ("C10-expiry-off-by-one", "C10", "passage-protocol/src/connection.rs", "|| expires_at < now {", "|| expires_at <= now {"),
     ("C02-cookie-on-login-intent", "C02", "passage-protocol/src/connection.rs", "if handshake.next_state == State::Transfer {", "if handshake.next_state != State::Status {"),
     ("C02-skip-signature-check", "C02", "passage-protocol/src/connection.rs", "                if !ok {\n", "                if false && !ok {\n"),
     ("C03-transfer-to-handshake-port", "C03", "passage-protocol/src/connection.rs", "port: target.address.port(),", "port: handshake.server_port,"),
